@@ -87,7 +87,7 @@ def configs(tier):
     for text in TEXTS:
         for i, p in enumerate(two):
             for q in two[i:]:
-                heavy = weight(text, p) + weight(text, q) > (18 if tier == "quick" else 26)
+                heavy = weight(text, p) + weight(text, q) > (18 if tier == "quick" else 22)
                 if heavy:
                     # too many lock operations for an unbounded search in this tier: bounded instead
                     cfg.append(("2t-heavy", 3 if tier == "quick" else 4, text, [p, q], "loom"))
